@@ -8,7 +8,7 @@
    * [orient]      = generate_data_for_ranking: the label is moved to the second (conditioning) slot
    * [maxcov a b]  = ranking_cov_alignment.max_pair_coverage on two code vectors, an exact rational
    * [maxcov_old]  = the bucketed version before fix bf8a920 (kept for the refutation witness)
-   * [scorer]      = what a heuristic name selects (target type of the generated Gen/Dispatch.v)
+   * [scorer]      = what a heuristic name selects (target type of the generated Gen/Dispatch.v; meaning: Pipeline/Scorers.v)
    * [rank_rows]   = the triplets mixed_rank_graph emits for a list of evaluated pairs, parametric in
                      the scorer (an oracle: sklearn / scipy / numba are not modelled here)           *)
 From Coq Require Import String Ascii.
@@ -125,9 +125,6 @@ Definition scorer_eqb (a b : scorer) : bool :=
   | _, _ => false
   end.
 
-(* names of the surrogate / prior family are outside the property's quantifier *)
-Definition surrogate_name (h : str) : bool := sinfix (s_of "surrogate") h.
-
 (* ---- rows -------------------------------------------------------------------------------------- *)
 
 Definition frame := list (str * list str).      (* column name, cells *)
@@ -147,7 +144,16 @@ Section Rows.
   (* mixed_rank_graph: every evaluated pair yields the triplet and its mirror, same score *)
   Definition rank_rows (f : frame) (lbl : str) (pairs : list (str * str)) : list (str * str * score) :=
     flat_map (fun p => let s := eval_pair f lbl p in [(snd p, fst p, s); (fst p, snd p, s)]) pairs.
+  (* the Constant shortcut of mixed_rank_graph: one triplet per evaluated combination, score [zero], NO mirror and
+     no scoring call; every other heuristic goes through [rank_rows] *)
+  Definition rank_rows_h (constb : bool) (zero : score) (f : frame) (lbl : str) (pairs : list (str * str))
+    : list (str * str * score) :=
+    if constb then map (fun p => (fst p, snd p, zero)) pairs else rank_rows f lbl pairs.
 End Rows.
+
+(* the (A, B) part of the rows of one batch — what the harness compares as a multiset with the emitted rows *)
+Definition row_pairs (constb : bool) (pairs : list (str * str)) : list (str * str) :=
+  map (fun r => fst r) (rank_rows_h (fun _ _ => tt) constb tt [] [] pairs).
 
 (* ---- interface used by the harness (DESIGN Appendix C) ----------------------------------------- *)
 
